@@ -260,3 +260,48 @@ func acmBlob(total int, sizeField uint32, seed byte) []byte {
 	}
 	return b
 }
+
+// the same header, the body in 0x400-byte blocks of one byte value each (tag, tag+1, ...): an ACM
+// of any size stays a short run-length encoded literal on the Coq side
+func acmBlobFill(total int, sizeField uint32, tag byte) []byte {
+	b := make([]byte, total)
+	copy(b, acmBlob(min(total, 32), sizeField, tag))
+	for i := 32; i < total; i++ {
+		b[i] = tag + byte(i/0x400)
+	}
+	return b
+}
+
+// lengths a reader of an ACM header could take for the size of the module if it read the size
+// field with another width, offset, byte order or unit than the header format says (the format:
+// a 32-bit little-endian word at offset 24 counting 4-byte units); only values in (0, limit]
+func misreadSizes(h []byte, limit int) []int {
+	var out []int
+	seen := map[uint64]bool{}
+	add := func(v uint64) {
+		if v > 0 && v <= uint64(limit) && !seen[v] {
+			seen[v] = true
+			out = append(out, int(v))
+		}
+	}
+	le := func(off, w int) uint64 {
+		var v uint64
+		for i := 0; i < w; i++ {
+			v |= uint64(h[off+i]) << (8 * i)
+		}
+		return v
+	}
+	for w := 1; w <= 3; w++ {
+		add(le(24, w) * 4) // a narrower field
+	}
+	add(le(25, 3) * 4) // the upper bytes only
+	add(le(26, 2) * 4)
+	add(le(24, 4))     // bytes instead of 4-byte units
+	add(le(24, 4) * 2) // 2-byte units
+	add(le(24, 4) * 8)
+	add(le(24, 4) * 16)
+	add(le(20, 4) * 4) // the neighbouring fields
+	add(le(28, 4) * 4)
+	add(uint64(binary.BigEndian.Uint32(h[24:])) * 4)
+	return out
+}
